@@ -306,6 +306,8 @@ def run_program(cfg, steps, miss=None):
     for s in steps:
         if s[0] == "tick":
             st.tick(s[1])
+        elif s[0] == "repoint":
+            st.net.repoint(Stack.SERVER[0])      # the server moves to another address (same name)
         else:
             _, op, nr, plan, seg = s
             # a truncated reply followed by silence is a read timeout on a real socket
